@@ -322,8 +322,8 @@ def judge(ctx, scens, obs, models, replaying=False):
         pi, cj = st["i"], st["j"]
         ctx.diverge("%s %s" % (s["comb"], why),
                     "real %s produced a history that no ordering of its caller's operations reconciles with "
-                    "'same items, once each, in order, closed exactly when exhausted': %s at consumer operation %d"
-                    % (s["comb"], why, cj + 1),
+                    "'same items, once each, in order, closed exactly when exhausted': %s (refused after %d producer and "
+                    "%d consumer operations)" % (s["comb"], why, pi, cj),
                     dict(scenario=s, refused_at=dict(producer_ops_done=pi, consumer_ops_done=cj, why=why),
                          producer_tail=t["p"][max(0, pi - 3):pi + 2], consumer_tail=t["c"][max(0, cj - 3):cj + 3],
                          hang=o.get("hang"), dump=(o.get("dump") or "")[:6000]))
